@@ -160,6 +160,42 @@ func n11Continue(t *testing.T, files map[string][]byte) (ok bool, desc string) {
 	return ok, desc
 }
 
+// n11BigRoundTrip logs a small entry and one for a group of n firing alerts, stops through the real Maintenance
+// (shutdown snapshot) and starts again on the files.
+func n11BigRoundTrip(t *testing.T, n int) (desc string) {
+	synctest.Test(t, func(t *testing.T) {
+		fsys := vfs.NewFS()
+		vfs.Install(fsys)
+		defer vfs.Install(nil)
+		l, err := n11New(n11Path)
+		if err != nil {
+			panic(err)
+		}
+		stopc := make(chan struct{})
+		done := make(chan struct{})
+		go func() { l.Maintenance(50*time.Second, n11Path, stopc, nil); close(done) }()
+		firing := make([]uint64, n)
+		for i := range firing {
+			firing[i] = uint64(i)*0x9e3779b97f4a7c15 + 1
+		}
+		l.Log(c10Keys[0].r, c10Keys[0].gk, []uint64{1}, nil, nil, 0)
+		l.Log(c10Keys[1].r, c10Keys[1].gk, firing, nil, nil, 0)
+		time.Sleep(time.Second)
+		close(stopc)
+		<-done
+		want := n11Dump(l)
+		l2, err := n11New(n11Path)
+		if err != nil {
+			desc = "the next start refuses the snapshot this process wrote: " + err.Error()
+			return
+		}
+		if got := n11Dump(l2); got != want {
+			desc = fmt.Sprintf("the next start loads a different log (%d vs %d bytes of dump)", len(got), len(want))
+		}
+	})
+	return desc
+}
+
 func TestVerifC11Nflog(t *testing.T) {
 	shard, nsh := rep.Shard()
 	if rp := rep.ReplaySpec(); rp != nil {
@@ -300,9 +336,17 @@ func TestVerifC11Nflog(t *testing.T) {
 				}
 			}
 		}
+		// store contents of every size: one entry per order of magnitude of group size (1 .. 50 000 firing alerts, the
+		// largest record ~ 0.5 MB) next to a small one, written by the real shutdown snapshot and loaded by a fresh start
+		for _, n := range []int{1, 10, 100, 1000, 7000, 8000, 50000} {
+			R.Executions++
+			if d := n11BigRoundTrip(t, n); d != "" {
+				R.Violate("large-entry-does-not-survive-restart", fmt.Sprintf("group of %d alerts: %s", n, d), map[string]any{"rerun": true, "part": "nflog-loader", "alerts": n})
+			}
+		}
 		R.Transitions = R.Executions
 		R.Exhaustive = true
-		R.Bound = fmt.Sprintf("every byte prefix of a valid %d-byte snapshot; every byte replaced by 0x00 / 0xff / its complement", len(snap))
+		R.Bound = fmt.Sprintf("every byte prefix of a valid %d-byte snapshot; every byte replaced by 0x00 / 0xff / its complement; entries of 1..50000 alerts through snapshot and restart", len(snap))
 		R.Sample(map[string]any{"snapshot_bytes": len(snap)})
 		R.Write()
 	}
